@@ -81,15 +81,15 @@ fn render_group(
         // Convert group bbox into an integer one, expanding each side outwards by 2px
         // to make sure that anti-aliased pixels would not be clipped.
         tiny_skia::IntRect::from_xywh(
-            bbox.x().floor() as i32 - 2,
-            bbox.y().floor() as i32 - 2,
-            bbox.width().ceil() as u32 + 4,
-            bbox.height().ceil() as u32 + 4,
+            (bbox.x().floor() as i32).saturating_sub(2),
+            (bbox.y().floor() as i32).saturating_sub(2),
+            (bbox.width().ceil() as u32).saturating_add(4),
+            (bbox.height().ceil() as u32).saturating_add(4),
         )?
     } else {
         // The bounding box for groups with filters is special and should not be expanded by 2px,
         // because it's already acting as a clipping region.
-        let bbox = bbox.to_int_rect();
+        let bbox = crate::geom::to_int_rect(bbox)?;
         // Make sure our filter region is not bigger than 4x the canvas size.
         // This is required mainly to prevent huge filter regions that would tank the performance.
         // It should not affect the final result in any way.
